@@ -140,26 +140,24 @@ func itemOfEndpoint(e discover.VerifRPCEndpoint) *refrlp.Item {
 	return refrlp.L(refrlp.S(e.IP), refrlp.U(uint64(e.UDP)), refrlp.U(uint64(e.TCP)))
 }
 
-// itemOfPacket maps a decoded packet to the item tree whose canonical encoding
-// the signed payload must be. ok=false if a tail element is not canonical RLP
-// (then no comparison is possible).
-func itemOfPacket(p interface{}) (it *refrlp.Item, kind string, ok bool) {
-	var rest [][]byte
+// fieldsOfPacket maps a decoded packet to the item trees of its defined fields
+// (in wire order) and the raw tail elements it kept.
+func fieldsOfPacket(p interface{}) (fields []*refrlp.Item, rest [][]byte, kind string) {
 	switch v := p.(type) {
 	case *discover.VerifPing:
-		it = refrlp.L(refrlp.U(uint64(v.Version)), itemOfEndpoint(v.From), itemOfEndpoint(v.To), refrlp.U(v.Expiration))
+		fields = []*refrlp.Item{refrlp.U(uint64(v.Version)), itemOfEndpoint(v.From), itemOfEndpoint(v.To), refrlp.U(v.Expiration)}
 		kind = "ping"
 		for _, x := range v.Rest {
 			rest = append(rest, x)
 		}
 	case *discover.VerifPong:
-		it = refrlp.L(itemOfEndpoint(v.To), refrlp.S(v.ReplyTok), refrlp.U(v.Expiration))
+		fields = []*refrlp.Item{itemOfEndpoint(v.To), refrlp.S(v.ReplyTok), refrlp.U(v.Expiration)}
 		kind = "pong"
 		for _, x := range v.Rest {
 			rest = append(rest, x)
 		}
 	case *discover.VerifFindnode:
-		it = refrlp.L(refrlp.S(v.Target[:]), refrlp.U(v.Expiration))
+		fields = []*refrlp.Item{refrlp.S(v.Target[:]), refrlp.U(v.Expiration)}
 		kind = "findnode"
 		for _, x := range v.Rest {
 			rest = append(rest, x)
@@ -169,14 +167,22 @@ func itemOfPacket(p interface{}) (it *refrlp.Item, kind string, ok bool) {
 		for _, n := range v.Nodes {
 			nodes.List = append(nodes.List, refrlp.L(refrlp.S(n.IP), refrlp.U(uint64(n.UDP)), refrlp.U(uint64(n.TCP)), refrlp.S(n.ID[:])))
 		}
-		it = refrlp.L(nodes, refrlp.U(v.Expiration))
+		fields = []*refrlp.Item{nodes, refrlp.U(v.Expiration)}
 		kind = "neighbors"
 		for _, x := range v.Rest {
 			rest = append(rest, x)
 		}
 	default:
-		return nil, fmt.Sprintf("%T", p), false
+		kind = fmt.Sprintf("%T", p)
 	}
+	return
+}
+
+// itemOfPacket is the whole packet body as one item (tail elements must be
+// canonical RLP for ok).
+func itemOfPacket(p interface{}) (it *refrlp.Item, kind string, ok bool) {
+	fields, rest, kind := fieldsOfPacket(p)
+	it = refrlp.L(fields...)
 	for _, raw := range rest {
 		ri, err := refrlp.Decode(raw)
 		if err != nil {
@@ -185,6 +191,87 @@ func itemOfPacket(p interface{}) (it *refrlp.Item, kind string, ok bool) {
 		it.List = append(it.List, ri)
 	}
 	return it, kind, true
+}
+
+var (
+	errShTrunc    = fmt.Errorf("value larger than its container")
+	errShNonCanon = fmt.Errorf("non-canonical size")
+)
+
+// shallowHdr reads the header of the first RLP value in b (RLP definition,
+// yellow paper appendix B): kind 'b' single byte, 's' string, 'l' list; tag =
+// header length, size = content length. The content is not inspected.
+func shallowHdr(b []byte) (kind byte, tag, size int, err error) {
+	if len(b) == 0 {
+		return 0, 0, 0, errShTrunc
+	}
+	t := b[0]
+	long := func(base byte) (int, int, error) {
+		ll := int(t - base)
+		if len(b) < 1+ll {
+			return 0, 0, errShTrunc
+		}
+		if b[1] == 0 || ll > 4 {
+			if b[1] == 0 {
+				return 0, 0, errShNonCanon
+			}
+			return 0, 0, errShTrunc // > 4 GiB: cannot fit any datagram
+		}
+		n := 0
+		for _, x := range b[1 : 1+ll] {
+			n = n<<8 | int(x)
+		}
+		if n < 56 {
+			return 0, 0, errShNonCanon
+		}
+		return 1 + ll, n, nil
+	}
+	switch {
+	case t < 0x80:
+		return 'b', 0, 1, nil
+	case t < 0xb8:
+		kind, tag, size = 's', 1, int(t-0x80)
+	case t < 0xc0:
+		kind = 's'
+		tag, size, err = long(0xb7)
+	case t < 0xf8:
+		kind, tag, size = 'l', 1, int(t-0xc0)
+	default:
+		kind = 'l'
+		tag, size, err = long(0xf7)
+	}
+	if err != nil {
+		return 0, 0, 0, err
+	}
+	if tag+size > len(b) {
+		return 0, 0, 0, errShTrunc
+	}
+	if kind == 's' && size == 1 && tag == 1 && b[1] < 0x80 {
+		return 0, 0, 0, errShNonCanon
+	}
+	return kind, tag, size, nil
+}
+
+// shallowList cuts the first value of b, which must be a list, into the
+// encodings of its top-level elements. used = bytes of b the list occupies.
+func shallowList(b []byte) (elems [][]byte, used int, err error) {
+	kind, tag, size, err := shallowHdr(b)
+	if err != nil {
+		return nil, 0, err
+	}
+	if kind != 'l' {
+		return nil, 0, fmt.Errorf("not a list")
+	}
+	content := b[tag : tag+size]
+	for len(content) > 0 {
+		_, t, s, err := shallowHdr(content)
+		if err != nil {
+			return nil, 0, err
+		}
+		elems = append(elems, content[:t+s])
+		content = content[t+s:]
+	}
+	return elems, tag + size, nil
 }
 
 // ---- the oracle ---------------------------------------------------------------
@@ -288,7 +375,7 @@ func checkDecode(c *fw.Ctx, netcompat bool, d []byte, exp expect, signer *discov
 	c.Count("accepted_id_verified")
 	et := effType(netcompat, sigdata[0])
 	wantKind, known := kindOfType[et]
-	it, gotKind, canon := itemOfPacket(pkt)
+	fields, restRaw, gotKind := fieldsOfPacket(pkt)
 	if !known || gotKind != wantKind {
 		c.ViolateInput("delivered_differs_from_signed", "decodePacket", "packet_type",
 			fmt.Sprintf("type byte %d (effective %d, %q) decoded as %q", sigdata[0], et, wantKind, gotKind), in)
@@ -306,29 +393,49 @@ func checkDecode(c *fw.Ctx, netcompat bool, d []byte, exp expect, signer *discov
 		return false
 	}
 	payload := sigdata[off:]
-	first, rest, derr := refrlp.DecodeOne(payload)
+	// The packet body is a list: its leading elements are the defined fields
+	// (interpreted, so compared as values), the remaining ones are kept as raw
+	// bytes for forward compatibility (never interpreted, so compared as bytes).
+	elems, used, serr := shallowList(payload)
 	switch {
-	case derr == refrlp.ErrTruncated || derr == refrlp.ErrEmpty:
-		c.ViolateInput("delivered_differs_from_signed", "decodePacket", "undecodable_payload_accepted",
-			fmt.Sprintf("payload is not a complete RLP value (%v) but a %s packet was delivered", derr, gotKind), in)
-		return false
-	case derr != nil:
+	case serr == errShNonCanon:
 		c.Count("accepted_noncanonical_rlp") // strictness of the RLP codec is property C11, not judged here
 		return false
-	}
-	_ = first
-	if !canon {
-		c.Count("accepted_noncanonical_rlp")
+	case serr != nil:
+		c.ViolateInput("delivered_differs_from_signed", "decodePacket", "undecodable_payload_accepted",
+			fmt.Sprintf("payload is not a complete RLP list (%v) but a %s packet was delivered", serr, gotKind), in)
 		return false
 	}
-	signedItem := payload[:len(payload)-len(rest)]
-	if len(rest) > 0 {
+	if used < len(payload) {
 		c.Count("accepted_with_trailing_bytes")
 	}
-	if re := refrlp.Encode(it); !bytes.Equal(re, signedItem) {
+	if len(elems) != len(fields)+len(restRaw) {
 		c.ViolateInput("delivered_differs_from_signed", "decodePacket", gotKind+"_fields",
-			fmt.Sprintf("decoded %s packet re-encodes to %x, signed payload is %x", gotKind, re, signedItem), in)
+			fmt.Sprintf("signed list has %d elements, decoded packet has %d fields + %d tail elements", len(elems), len(fields), len(restRaw)), in)
 		return false
+	}
+	for i, f := range fields {
+		if _, derr := refrlp.Decode(elems[i]); derr != nil {
+			if derr == refrlp.ErrTruncated || derr == refrlp.ErrEmpty {
+				c.ViolateInput("delivered_differs_from_signed", "decodePacket", "undecodable_payload_accepted",
+					fmt.Sprintf("field %d of the signed %s body is not decodable (%v) but the packet was delivered", i, gotKind, derr), in)
+				return false
+			}
+			c.Count("accepted_noncanonical_rlp")
+			return false
+		}
+		if re := refrlp.Encode(f); !bytes.Equal(re, elems[i]) {
+			c.ViolateInput("delivered_differs_from_signed", "decodePacket", gotKind+"_fields",
+				fmt.Sprintf("field %d of the decoded %s packet re-encodes to %x, the signed bytes are %x", i, gotKind, re, elems[i]), in)
+			return false
+		}
+	}
+	for i, raw := range restRaw {
+		if !bytes.Equal(raw, elems[len(fields)+i]) {
+			c.ViolateInput("delivered_differs_from_signed", "decodePacket", gotKind+"_fields",
+				fmt.Sprintf("tail element %d kept as %x, the signed bytes are %x", i, raw, elems[len(fields)+i]), in)
+			return false
+		}
 	}
 	c.Count("accepted_fields_match_signed_payload")
 	c.Count("accepted_" + gotKind)
